@@ -280,7 +280,8 @@ impl Check {
             return true;
         }
         self.violations += 1;
-        if self.violation_sigs.insert(sig.to_string()) && self.violation_sigs.len() <= 25 {
+        let cap = std::env::var("VERIF_MAX_VIOLATIONS").ok().and_then(|v| v.parse::<usize>().ok()).unwrap_or(40);
+        if self.violation_sigs.insert(sig.to_string()) && self.violation_sigs.len() <= cap {
             let path = self.write_replay(sig, what, replay);
             println!("VIOLATION property={} replay={}", self.id, path.display());
             println!("  sig={} {}", sig, what);
@@ -359,6 +360,12 @@ impl Check {
 
     /// writes evidence, prints a summary and returns the process exit code
     pub fn finish(&self) -> i32 {
+        // every listed finding of this property is printed, also when this run excluded it by construction
+        for f in &self.known.findings {
+            if f.property == self.id && !self.known_hit.contains_key(&f.sig) {
+                println!("KNOWN-FINDING: property={} sig={} {} [not re-observed in this run: excluded by construction]", self.id, f.sig, f.text);
+            }
+        }
         self.write_evidence();
         let _ = std::io::stdout().flush();
         eprintln!(
